@@ -97,13 +97,15 @@ def one(ctx, A, p, klass, eps, suc, box, bits_vec):
     # the replayed session: every degenerate / out-of-box call made so far plus the six most recent calls
     before = [c for i, c in enumerate(SESSION) if c.get("special") or i >= len(SESSION) - 6]
     SESSION.append({"p": list(p), "eps": eps, "suc": suc, "seed_bits": bits_vec, "special": n == 0 or not box})
+    pobj, pform = P.poly_form([float(x) for x in p], (list(p), eps), kinds=("list", "ndarray", "tuple"))
+    ctx.count("container:" + pform)
     try:
         with core.quiet(), P.forced_seed(bits_vec):
             if (eps, suc) == (1e-4, 1 - 1e-4):
                 ctx.count("settings:library-defaults")
-                ph = A.angle_sequence(list(p))
+                ph = A.angle_sequence(pobj)
             else:
-                ph = A.angle_sequence(list(p), eps=eps, suc=suc)
+                ph = A.angle_sequence(pobj, eps=eps, suc=suc)
         out = ("ok", [float(x) for x in ph])
         core.poison(ph)
     except Exception as e:  # noqa
